@@ -5,7 +5,9 @@ from bounded import traversal_drv
 
 def run(tier, seed):
     res = PropertyResult('C17', 'other',
-                         'Tier P (unbounded, one function): Circuit.topological_line_order is executed symbolically as a generator (yields appended to a ghost sequence) for an arbitrary '
+                         'Tier P (unbounded, two functions, both relative to topological_order): Circuit.topological_order_with_level is executed symbolically as a generator for a node sequence with the guarantees of topological_order '
+                         '(nodes of the circuit, each at most once, connected drivers of a combinational node earlier) and proved to yield, in that order, every node with its longest combinational distance from a source '
+                         '(0 for state elements and nodes without connected input, else 1 + maximum over the drivers of its connected inputs); Circuit.topological_line_order is executed symbolically as a generator (yields appended to a ghost sequence) for an arbitrary '
                          'node sequence produced by topological_order() and arbitrary pin lists, and proved to yield exactly the connected output lines of the nodes, node by node in that order and '
                          'in pin order within a node (position = lines of earlier nodes + connected pins below), never None. Tier B: runtime contracts (permutation, driver-before-reader cut at state elements, sources first, level = longest combinational '
                          'distance, mirror conditions for the reversed order, fan-in between the combinational and the any-path cone, bus lookups by '
@@ -13,7 +15,7 @@ def run(tier, seed):
     try:
         from contracts import graph_c
         from pyvc.verify import verify
-        res.report = verify(graph_c.targets_c17(), timeout_s=20 if tier == 'quick' else 120)
+        res.report = verify(graph_c.targets_c17() + graph_c.targets_level(), timeout_s=20 if tier == 'quick' else 120)
     except ImportError:
         res.report = None
     res.bounded = [traversal_drv.traversal_part(tier, seed), traversal_drv.locs_part(seed)]
